@@ -5,9 +5,12 @@
     Hypotheses: [plain_input p = Some ci] (the program is a single CrossBlock of plain factors with
     constraints among MinimumTrials / the run-length and count kinds / Exclude / Pin, and [ci] is
     what its constructor hands to [_create]); [t2_guard p = true] (Front/PlainT2Final.v);
-    [create_flat ci = FOk fb]; [doc_sem p = Ok ds]; [in_f1 fb = true] (the fragment of the
-    compilation theorem, Properties/C01.v) and [0 < T fb]; [compile fb = COk b],
-    [full_cnf b = (ok, n', final)].  [onehot fb t q]: the trial variables of the assignment [t]
+    [create_flat ci = FOk fb]; [doc_sem p = Ok ds]; [compile fb = COk b],
+    [full_cnf b = (ok, n', final)].  [T2e_plain_in_f1]: under [t2e_guard] (= [t2_guard] and k > 0 on
+    AtLeastKInARow / ExactlyKInARow) the created flat record lies in the fragment F1 of the
+    compilation theorem (Properties/C01.v) and has a positive trial count, so the two headline
+    theorems need no hypothesis about [fb] beyond [create_flat ci = FOk fb]; the [_f1] variants
+    take [in_f1 fb = true] and [0 < T fb] as hypotheses instead of the k > 0 part of the guard.  [onehot fb t q]: the trial variables of the assignment [t]
     are the one-hot image of the sequence [q] (Encode/F1Sem.v). *)
 From Coq Require Import ZArith List Bool Arith String.
 From SP Require Import Base.Sat Design.Flat Design.Sem Design.DocSem
@@ -16,7 +19,7 @@ From SP Require Import Base.Sat Design.Flat Design.Sem Design.DocSem
 Import ListNotations.
 Local Open Scope nat_scope.
 
-Theorem T2e_plain_sound :
+Theorem T2e_plain_sound_f1 :
   forall (p : program) (ci : create_input) (fb : flat) (ds : docsem),
     plain_input p = Some ci -> t2_guard p = true -> create_flat ci = FOk fb -> doc_sem p = Ok ds ->
     in_f1 fb = true -> 0 < T fb ->
@@ -24,9 +27,9 @@ Theorem T2e_plain_sound :
       compile fb = COk b -> full_cnf b = (ok, n', final) ->
       forall t, sat t final = true -> exists q, onehot fb t q /\ valid_b (ds_sem ds) q = true.
 Proof. exact plain_e2e_sound. Qed.
-Print Assumptions T2e_plain_sound.
+Print Assumptions T2e_plain_sound_f1.
 
-Theorem T2e_plain_complete_unique :
+Theorem T2e_plain_complete_unique_f1 :
   forall (p : program) (ci : create_input) (fb : flat) (ds : docsem),
     plain_input p = Some ci -> t2_guard p = true -> create_flat ci = FOk fb -> doc_sem p = Ok ds ->
     in_f1 fb = true -> 0 < T fb ->
@@ -37,6 +40,33 @@ Theorem T2e_plain_complete_unique :
         (forall t1 t2, sat t1 final = true -> sat t2 final = true -> onehot fb t1 q -> onehot fb t2 q ->
                        agree_upto n' t1 t2).
 Proof. exact plain_e2e_complete_unique. Qed.
+Print Assumptions T2e_plain_complete_unique_f1.
+
+Theorem T2e_plain_in_f1 : forall p ci fb,
+  plain_input p = Some ci -> t2e_guard p = true -> create_flat ci = FOk fb ->
+  in_f1 fb = true /\ 0 < T fb.
+Proof. exact plain_t2_in_f1. Qed.
+Print Assumptions T2e_plain_in_f1.
+
+Theorem T2e_plain_sound :
+  forall (p : program) (ci : create_input) (fb : flat) (ds : docsem),
+    plain_input p = Some ci -> t2e_guard p = true -> create_flat ci = FOk fb -> doc_sem p = Ok ds ->
+    forall (b : backend) (ok : bool) (n' : Z) (final : cnf),
+      compile fb = COk b -> full_cnf b = (ok, n', final) ->
+      forall t, sat t final = true -> exists q, onehot fb t q /\ valid_b (ds_sem ds) q = true.
+Proof. exact plain_e2e_sound_guard. Qed.
+Print Assumptions T2e_plain_sound.
+
+Theorem T2e_plain_complete_unique :
+  forall (p : program) (ci : create_input) (fb : flat) (ds : docsem),
+    plain_input p = Some ci -> t2e_guard p = true -> create_flat ci = FOk fb -> doc_sem p = Ok ds ->
+    forall (b : backend) (ok : bool) (n' : Z) (final : cnf),
+      compile fb = COk b -> full_cnf b = (ok, n', final) ->
+      forall q, valid_b (ds_sem ds) q = true ->
+        (exists t, sat t final = true /\ onehot fb t q) /\
+        (forall t1 t2, sat t1 final = true -> sat t2 final = true -> onehot fb t1 q -> onehot fb t2 q ->
+                       agree_upto n' t1 t2).
+Proof. exact plain_e2e_complete_unique_guard. Qed.
 Print Assumptions T2e_plain_complete_unique.
 
 (** the hypotheses are satisfiable: the program of Properties/T2c.v (weighted crossed factor, an
@@ -52,7 +82,7 @@ Definition ex_plain :=
 
 Example T2e_example :
   exists ci fb ds b,
-    plain_input ex_plain = Some ci /\ t2_guard ex_plain = true /\ create_flat ci = FOk fb /\ doc_sem ex_plain = Ok ds /\
+    plain_input ex_plain = Some ci /\ t2e_guard ex_plain = true /\ create_flat ci = FOk fb /\ doc_sem ex_plain = Ok ds /\
     in_f1 fb = true /\ 0 < T fb /\ compile fb = COk b /\ T fb = 7.
 Proof.
   destruct (plain_input ex_plain) as [ci|] eqn:Ei; [|vm_compute in Ei; discriminate].
